@@ -23,6 +23,8 @@ package signing_proposal_fsm
 //@   ensures[C06.count] err == nil ==> sgnCnt(m.payload, internal.SigningPartialSignsConfirmed) == old(sgnCnt(m.payload, internal.SigningPartialSignsConfirmed)) + 1 && sgnCnt(m.payload, internal.SigningError) == old(sgnCnt(m.payload, internal.SigningError)) && len(sgnQ(m.payload)) == old(len(sgnQ(m.payload)))
 //@   ensures[C05.reject,C06.reject,C18.reject] err != nil ==> signingViewsSame(m)
 //@   ensures[C06.shape] outEvent == "" && response == nil
+// a well-formed contribution of an awaited participant to the current batch is never refused for another reason
+//@   erroronly[C06.accepts] Validate | !isPsReq(args) || !old(psReq(args).ParticipantId in sgnQ(m.payload)) || psReq(args).BatchID != old(sp(m).BatchID) || old(sgnQ(m.payload)[psReq(args).ParticipantId].Status) != internal.SigningAwaitPartialSigns
 //@   ensures[C06.once,C10.once] err == nil ==> isPsReq(args) && (psReq(args).ParticipantId in old(dom(sgnQ(m.payload)))) && old(sgnQ(m.payload)[psReq(args).ParticipantId].Status) == internal.SigningAwaitPartialSigns && sgnQ(m.payload)[psReq(args).ParticipantId].Status == internal.SigningPartialSignsConfirmed
 //@   ensures[C06.batch] err == nil ==> psReq(args).BatchID == old(sp(m).BatchID)
 //@   ensures[C06.valid] err == nil ==> len(psReq(args).PartialSigns) > 0 && psReq(args).ParticipantId >= 0
@@ -99,6 +101,8 @@ package signing_proposal_fsm
 //@   safety C18
 //@   requires m != nil && m.payload != nil && m.payload.SigningProposalPayload != nil && wfDkgQ(m.payload) && injDkg(dkgQ(m.payload))
 //@   ensures[C05.reject,C06.reject,C18.reject] err != nil ==> unchanged("*internal.DumpedMachineStatePayload", "*internal.SigningConfirmation", "*internal.SigningProposalParticipant", "map[int]*internal.SigningProposalParticipant")
+// an idle round accepts every well-formed proposal (nothing but the request's own validation can refuse it)
+//@   erroronly[C06.accepts] Validate Marshal | !isStartReq(args)
 //@   ensures[C06.start] err == nil ==> isStartReq(args) && outEvent == inEvent && sp(m) == old(sp(m)) && sp(m).BatchID == startReq(args).BatchID && len(sp(m).BatchID) > 0 && sp(m).InitiatorId == startReq(args).ParticipantId && sgnQ(m.payload) != nil && fresh(sgnQ(m.payload)) && (forall k int :: (k in sgnQ(m.payload)) == old(k in dkgQ(m.payload))) && len(sgnQ(m.payload)) == old(len(dkgQ(m.payload)))
 //@   ensures[C06.start.records,C10.batch.fresh] err == nil ==> (forall k int :: k in sgnQ(m.payload) ==> sgnQ(m.payload)[k] != nil && fresh(sgnQ(m.payload)[k]) && sgnQ(m.payload)[k].Status == internal.SigningAwaitPartialSigns && sgnQ(m.payload)[k].Username == old(dkgQ(m.payload)[k].Username) && sgnQ(m.payload)[k].Error == nil && sgnQ(m.payload)[k].PartialSigns == nil)
 //@   ensures[C06.start.inj] err == nil ==> injSgn(sgnQ(m.payload))
